@@ -152,8 +152,13 @@ def check(model, rep, tier):
                     lp.body[0]) or pat.match(
                         '_S_.update(self.current_analyzer.out[%s].value.keys())' % lv,
                         lp.body[0])
-      ok = b is not None and pat.has(
-          ag.node, 'anno.setanno(%s, anno.Static.DEFINED_VARS_IN, frozenset(_S_))' % ap, b)
+      sets_ = [c for c in ast.walk(ag.node) if isinstance(c, ast.Call) and
+               core.dotted(c.func) == 'anno.setanno' and len(c.args) == 3 and
+               core.norm(c.args[0]) == ap and
+               core.norm(c.args[1]) == 'anno.Static.DEFINED_VARS_IN']
+      ok = b is not None and len(sets_) == 1 and core.norm(
+          tpl.expand(ag, sets_[0].args[2], sets_[0], depth=1)) in (
+              'frozenset(%s)' % b['_S_'], b['_S_'])
   rep.check(ok, 'RD-ENTRY', '%s:all-statement-predecessors' % ag.site,
             'defined-on-entry must unite the symbols of out[p] for every '
             'statement predecessor p (jump nodes included: they pass their '
